@@ -86,16 +86,26 @@ func (g *GoBackNConn) serverHandshake() error { // nolint:gocyclo
 	var n uint8
 	var resent bool
 
+	// reading is true from the moment we ask the goroutine above to read
+	// the next packet until we have taken that packet off recvChan. We
+	// never ask for a second packet while one read is still outstanding: a
+	// read left behind when the handshake completes would swallow (and
+	// drop) the first packet of the data phase.
+	var reading bool
+
 handshakeLoop:
 	for {
 		g.log.Debugf("Waiting for client SYN")
-		select {
-		case <-g.ctx.Done():
-			return nil
-		case <-g.quit:
-			return nil
-		case recvNext <- 1:
-		default:
+		if !reading {
+			select {
+			case <-g.ctx.Done():
+				return nil
+			case <-g.quit:
+				return nil
+			case recvNext <- 1:
+				reading = true
+			default:
+			}
 		}
 
 		var b []byte
@@ -105,6 +115,7 @@ handshakeLoop:
 		case <-g.quit:
 			return nil
 		case b = <-recvChan:
+			reading = false
 		}
 
 		msg, err := Deserialize(b)
@@ -166,13 +177,16 @@ handshakeLoop:
 
 		// Wait for SYNACK
 		g.log.Debugf("Waiting for client SYNACK")
-		select {
-		case recvNext <- 1:
-		case <-g.ctx.Done():
-			return g.ctx.Err()
-		case <-g.quit:
-			return nil
-		default:
+		if !reading {
+			select {
+			case recvNext <- 1:
+				reading = true
+			case <-g.ctx.Done():
+				return g.ctx.Err()
+			case <-g.quit:
+				return nil
+			default:
+			}
 		}
 
 		select {
@@ -189,6 +203,7 @@ handshakeLoop:
 		case <-g.quit:
 			return nil
 		case b = <-recvChan:
+			reading = false
 		}
 
 		msg, err = Deserialize(b)
